@@ -17,24 +17,41 @@ pub struct Explorer {
     pub sched: Vec<usize>,
     pub diverged: u64,
     pub nontrivial: bool,
+    /// random mode: per-run probability (per mille) of letting the running process continue. 0 = uniform choice at
+    /// every step; high values give long uninterrupted stretches with a switch at a uniformly spread position, which
+    /// is what reaches "another thread acts exactly in the k-th window of a long sequence"
+    sticky: u64,
 }
 
 impl Explorer {
     pub fn new(mode: Mode, seed: u64) -> Self {
-        Explorer { mode, stack: vec![], pos: 0, preempts: 0, rng: Rng(seed), sched: vec![], diverged: 0, nontrivial: false }
+        Explorer { mode, stack: vec![], pos: 0, preempts: 0, rng: Rng(seed), sched: vec![], diverged: 0, nontrivial: false, sticky: 0 }
     }
     pub fn begin_run(&mut self) {
         self.pos = 0;
         self.preempts = 0;
         self.sched.clear();
         self.nontrivial = false;
+        if matches!(self.mode, Mode::Random) {
+            self.sticky = [0, 0, 500, 800, 900, 950][self.rng.below(6)];
+        }
     }
     /// Pick one of `n` options. If `cont` is true, option 0 means "keep running the same process"
     /// and any other option is a preemption.
     pub fn choose(&mut self, n: usize, cont: bool) -> usize {
         assert!(n > 0);
         let c = match &self.mode {
-            Mode::Random => self.rng.below(n),
+            Mode::Random => {
+                if cont && n > 1 && self.sticky > 0 {
+                    if (self.rng.below(1000) as u64) < self.sticky {
+                        0
+                    } else {
+                        1 + self.rng.below(n - 1)
+                    }
+                } else {
+                    self.rng.below(n)
+                }
+            }
             Mode::Replay(v) => {
                 let c = v.get(self.pos).copied().unwrap_or(0);
                 if c < n { c } else { 0 }
